@@ -1928,6 +1928,7 @@ const (
 	exportDefaultStartFlag
 	arrowExprStartFlag
 	forOfInitStartFlag
+	forInitExprStartFlag
 )
 
 func (p *printer) saveExprStartFlags() (flags exprStartFlags) {
@@ -1943,6 +1944,9 @@ func (p *printer) saveExprStartFlags() (flags exprStartFlags) {
 	}
 	if p.forOfInitStart == n {
 		flags |= forOfInitStartFlag
+	}
+	if p.forInitExprStart == n {
+		flags |= forInitExprStartFlag
 	}
 	return
 }
@@ -1961,6 +1965,9 @@ func (p *printer) restoreExprStartFlags(flags exprStartFlags) {
 		}
 		if (flags & forOfInitStartFlag) != 0 {
 			p.forOfInitStart = n
+		}
+		if (flags & forInitExprStartFlag) != 0 {
+			p.forInitExprStart = n
 		}
 	}
 }
